@@ -203,9 +203,11 @@ def run(ctx):
                 break
         temp_local = rb.blocks[[bb for (bb, t) in rb.calls() if callee_name(t).endswith("::collect")][0]]["term"]["dest"]["l"] \
             if any(callee_name(t).endswith("::collect") for (bb, t) in rb.calls()) else None
-        good_seq = len(seq) == 3 and seq[0] == ("push", "র") and seq[1] == ("push", "্") and seq[2][0] == "push_str"
+        # literal appends side by side are one literal: push(র) push(্) is push_str("র্")
+        nseq = _join_literals(seq)
+        good_seq = len(nseq) == 2 and nseq[0] == "র্" and not isinstance(nseq[1], str) and nseq[1][0] == "push_str"
         if good_seq:
-            e3 = seq[2][1]
+            e3 = nseq[1][1]
             src_ok = e3 is not None and (contains_call(e3, lambda n: n.endswith("::collect")) is not None
                                          or (split_form and contains_call(e3, lambda n: n.endswith("String::split_off")) is not None))
             if src_ok:
@@ -227,8 +229,13 @@ def run(ctx):
         else:
             reg = rb.reachable_from(nm)
             ws = [(op.split("::")[-1], bb2) for (f, op, bb2, w) in phonetic.field_writes(prog, reph_fn, mods, body=rb) if bb2 in reg and f[:1] == (buf,)]
-            if [w[0] for w in ws] == ["push", "push"]:
-                r2.ok("append", "not moveable: exactly push(র) push(্)")
+            lits = []
+            for (opn, bb2) in sorted(ws, key=lambda w_: (0 if w_[1] == nm or w_[1] not in rb.reachable_from(nm) else 1, len(rb.reachable_from(w_[1])) * -1)):
+                t2 = rb.blocks[bb2]["term"]
+                a1 = peel_conv(rb.expr_operand(t2["args"][1])) if t2["k"] == "call" and len(t2["args"]) > 1 else None
+                lits.append((opn, const_val(a1) if a1 is not None and a1.k == "const" else a1))
+            if _join_literals(lits) == ["র্"]:
+                r2.ok("append", "not moveable: exactly র্ is appended")
             else:
                 r2.violation("append", "the not-moveable branch performs %s instead of appending র্" % [w[0] for w in ws], site_of(rb, nm))
         # frame: nothing else touches the text — apart from a character taken off and put back under the same condition on every path
@@ -413,7 +420,8 @@ def run(ctx):
     common.plain_options(r6, prog, ["get_fixed_old_reph"])
     r6.floor(1, "the option")
     r1.table("obligations", n_ob)
-    r1.floor(6, "4 counter increments, len − step, suffix-bytes (sum, subtraction, truncate)")
+    # (today's tree has nine sites; increments shared by several arms and a tail taken with split_off are the same algorithm with fewer)
+    r1.floor(3, "at least a counter increment, len − step, and the cut of the tail (truncate / split_off)")
 
 
 def _loop_sum_form(ib, sub, buf):
@@ -479,6 +487,22 @@ def _loop_sum_form(ib, sub, buf):
     if inner:
         return False, "nested loop inside the accumulating loop", None
     return True, "", take_local
+
+
+def _join_literals(seq):
+    """[(op, value)] of appends to the text → the same with adjacent literal appends (push of a char, push_str of a str) joined into one str."""
+    out, cur = [], None
+    for (op, v) in seq:
+        if op in ("push", "push_str") and isinstance(v, str):
+            cur = (cur or "") + v
+            continue
+        if cur is not None:
+            out.append(cur)
+            cur = None
+        out.append((op, v))
+    if cur is not None:
+        out.append(cur)
+    return out
 
 
 def _is_len_minus(b, abb, buf):
